@@ -197,3 +197,24 @@ def units_invariance_ok(name, s, i, us, xs):
     a = kinetics.compute_dspeciesdt(sysm, s, i, state=duck, apply_chemostats=False)
     b = kinetics.compute_dspeciesdt(sysm, s, i, state=duck, apply_chemostats=False, units_system=SYS[us])
     return b.units.sys == SYS[us] and _close(si(a), si(b), abs(si(a)) + abs(si(b))) and b.units.dim == a.units.dim
+
+
+def dxdtf_units_ok(name, us, xs):
+    """make_dxdtf(units_system=U): with x given in U's amount unit, the returned derivative (amount/time of U) is the law, compared in SI"""
+    sysm = system(name)
+    U = SYS[us]
+    f = sysm.make_dxdtf(units_system=U)
+    q_def = si_factor(sysm.state.units.sys, UnitsDimensions(0, 0, 1))
+    q_u, r_u = si_factor(U, UnitsDimensions(0, 0, 1)), si_factor(U, UnitsDimensions(0, -1, 1))
+    x_u = [x * q_def / q_u for x in xs]
+    got = f(0.0, x_u)
+    r_def = si_factor(UnitsSystem(), UnitsDimensions(0, -1, 1))
+    flags = [int(c) for c in sysm.chemostats]
+    for s in range(len(xs)):
+        want = reference(sysm, xs, s, 0, flags) * r_def
+        if flags[s]:
+            if got[s] != 0:
+                return False
+        elif not _close(got[s] * r_u, want, _scale(xs) * r_def):
+            return False
+    return True
